@@ -66,8 +66,11 @@ func readTlvStream(
 			}
 		}
 
-		// If less than one packet space remains in buffer, shift to beginning
-		if recvOff-tlvOff < defn.MaxNDNPacketSize {
+		// Shift the unparsed remainder to the beginning. The remainder is never
+		// larger than one packet here; a remainder of exactly that size (the
+		// start of a block whose header makes it slightly larger) must be
+		// shifted as well, or the buffer can end up full with no room to read.
+		if recvOff-tlvOff <= defn.MaxNDNPacketSize {
 			copy(recvBuf, recvBuf[tlvOff:recvOff])
 			recvOff -= tlvOff
 			tlvOff = 0
